@@ -117,7 +117,14 @@ def case(spec):
     chain, widths = build_chain(spec)
     work = harness.fresh(os.path.join(spec["work"], "c%d" % spec["n"]))
     d = os.path.join(work, "d")
-    datadir.write_datadir(d, COINS[coin], harness.simple_layout(chain))
+    if spec["n"] % 4 == 3 and len(chain) >= 3:
+        # field fidelity must not depend on the physical layout or on obfuscation
+        from .. import layouts
+        lrng = random.Random("C01layout|%s" % spec["n"])
+        kw, _desc, _ = layouts.make_layout(lrng, chain, coin, assign=lrng.choice(["round_robin", "random", "reversed"]), nfiles=lrng.randint(2, 3))
+        datadir.write_datadir(d, COINS[coin], xor_key=bytes(lrng.randrange(1, 256) for _ in range(lrng.choice([8, 5]))), **kw)
+    else:
+        datadir.write_datadir(d, COINS[coin], harness.simple_layout(chain))
     binary = core.build(spec.get("profile", "release"))
     verify = spec.get("verify", False)
     real_genesis = chain[0][1].hash_hex == COINS[coin].genesis_hash
